@@ -30,7 +30,8 @@ Proof. unfold posts_undecodable_event, is_promoted. destruct (ms_promoted m) as 
 Lemma apply_dtx_fixed_total i t : exists x, apply_dtx dcfg_fixed i t = Ret x.
 Proof.
   unfold apply_dtx. destruct i; [eauto|].
-  destruct (dt_body t) as [| |ok| |ok|bc|beh|evm_ok lg bc| | | |]; try (eexists; reflexivity).
+  destruct (dt_body t) as [| |ok| |ok|ok|bc|beh|evm_ok lg bc| | | |]; try (eexists; reflexivity).
+  - cbn [d_code_revert_reenters dcfg_fixed]. rewrite andb_false_r. eauto.
   - (* BBvm *)
     destruct (invoke dcfg_fixed bc) as [ran ok] eqn:Ei.
     assert (Hw : call_wipes dcfg_fixed bc = false) by (destruct bc; reflexivity).
@@ -122,18 +123,18 @@ Proof. intro H. unfold invoke. rewrite H. reflexivity. Qed.
 (** crash witnesses, one per flag (all other flags off) *)
 
 Definition with_promoted := {| d_promoted_dispatch := true; d_evm_wipes_revisions := false; d_checkproof_nil_err := false;
-                              d_nil_validator := false; d_evm_interchain_norecover := false; d_nil_to := false; d_nil_from := false |}.
+                              d_nil_validator := false; d_evm_interchain_norecover := false; d_nil_to := false; d_nil_from := false; d_code_revert_reenters := false |}.
 Definition with_wipe := {| d_promoted_dispatch := false; d_evm_wipes_revisions := true; d_checkproof_nil_err := false;
-                          d_nil_validator := false; d_evm_interchain_norecover := false; d_nil_to := false; d_nil_from := false |}.
+                          d_nil_validator := false; d_evm_interchain_norecover := false; d_nil_to := false; d_nil_from := false; d_code_revert_reenters := false |}.
 Definition with_nilerr := {| d_promoted_dispatch := false; d_evm_wipes_revisions := false; d_checkproof_nil_err := true;
-                            d_nil_validator := false; d_evm_interchain_norecover := false; d_nil_to := false; d_nil_from := false |}.
+                            d_nil_validator := false; d_evm_interchain_norecover := false; d_nil_to := false; d_nil_from := false; d_code_revert_reenters := false |}.
 Definition with_nilval := {| d_promoted_dispatch := false; d_evm_wipes_revisions := false; d_checkproof_nil_err := false;
-                            d_nil_validator := true; d_evm_interchain_norecover := false; d_nil_to := false; d_nil_from := false |}.
+                            d_nil_validator := true; d_evm_interchain_norecover := false; d_nil_to := false; d_nil_from := false; d_code_revert_reenters := false |}.
 Definition with_evmic := {| d_promoted_dispatch := false; d_evm_wipes_revisions := false; d_checkproof_nil_err := false;
-                           d_nil_validator := false; d_evm_interchain_norecover := true; d_nil_to := false; d_nil_from := false |}.
+                           d_nil_validator := false; d_evm_interchain_norecover := true; d_nil_to := false; d_nil_from := false; d_code_revert_reenters := false |}.
 
 Definition with_niladdr := {| d_promoted_dispatch := false; d_evm_wipes_revisions := false; d_checkproof_nil_err := false;
-                             d_nil_validator := false; d_evm_interchain_norecover := false; d_nil_to := true; d_nil_from := true |}.
+                             d_nil_validator := false; d_evm_interchain_norecover := false; d_nil_to := true; d_nil_from := true; d_code_revert_reenters := false |}.
 
 Definition sig_post_interchain : msig :=
   {| ms_params := [KIface]; ms_variadic := false; ms_response := false; ms_promoted := Some SeEvent |}.
@@ -163,6 +164,17 @@ Proof. reflexivity. Qed.
 Theorem evm_interchain_refuted :
   exec_block with_evmic 7 [plain (BEth true true (BcCall sig_init_cache [] BOk false)) true] = Crash.
 Proof. reflexivity. Qed.
+
+Definition with_coderevert := {| d_promoted_dispatch := false; d_evm_wipes_revisions := false; d_checkproof_nil_err := false;
+                                d_nil_validator := false; d_evm_interchain_norecover := false; d_nil_to := false; d_nil_from := false;
+                                d_code_revert_reenters := true |}.
+
+(** a deployment that succeeds but whose fee cannot be paid wedges the executor *)
+Theorem code_revert_refuted :
+  exec_block with_coderevert 7 [plain (BXvmDeploy true) false] = Hang /\
+  exec_block with_coderevert 7 [plain (BXvmDeploy true) true] = Ret ([Some true], 8) /\
+  exec_block dcfg_fixed 7 [plain (BXvmDeploy true) false] = Ret ([Some false], 8).
+Proof. repeat split; reflexivity. Qed.
 
 Theorem nil_address_refuted :
   exec_block with_niladdr 7 [plain BNilTo true] = Crash /\ exec_block with_niladdr 7 [plain BNilFrom true] = Crash.
